@@ -1,18 +1,39 @@
 """C20 driver: runs the REAL chain-context adapters (Blockfrost, Ogmios v5, Ogmios v6, Kupo, cardano-cli)
-on service documents supplied as JSON text, with only the network transport replaced from outside:
+on service documents supplied as JSON text, with only the network transport and the clock replaced from outside:
 
   blockfrost : `requests.get` (the function the blockfrost-python library calls) serves the documents;
                the real BlockFrostApi / BlockFrostChainContext run, including pagination and Namespace conversion
   ogmios_v5  : `websocket.WebSocket` in pycardano.backend.ogmios_v5 is a stub whose recv() returns the JSON-WSP text
   ogmios_v6  : `OgmiosClient` in pycardano.backend.ogmios_v6 is a stub client; the ogmios library's own
                QueryUtxo response parser runs on the JSON-RPC document
-  kupo       : `requests.get` in pycardano.backend.kupo serves /matches, /datums, /scripts
+  kupo       : `requests.get` in pycardano.backend.kupo serves /matches, /datums, /scripts; the wrapped backend is a
+               ChainContext whose `last_block_slot` reads the service's tip live
   cli        : `subprocess.run` in pycardano.backend.cardano_cli returns the `query utxo --out-file /dev/stdout` text
+  clock      : `time.monotonic` / `time.time` are a counter in ticks of 1/1024 s that only the harness advances
+               (installed before cachetools is imported, so the TTL caches and the `last_block_slot` memo of the
+               adapters run on it; every interval used is dyadic, so their float arithmetic is exact)
 
-case = {'svc': name, 'addr': bech32 text, 'docs': {key: json text}}; keys: 'main', 'script:<h>', 'script_cbor:<h>',
-'script_json:<h>', 'datum:<h>'.  Result: {'ok': [utxo dumps]} or {'err': exception kind}.
+single response   case = {'svc': name, 'addr': bech32 text, 'docs': {key: json text}}; keys: 'main', 'script:<h>',
+                  'script_cbor:<h>', 'script_json:<h>', 'datum:<h>'.  Result: {'ok': [utxo dumps]} or {'err': kind}.
+sequence          case = {'seq': 1, 'svc', 'interval': ticks | None, 'maxsize', 'responses': [docs, ...],
+                  'ledgers': [{'slot': n, 'by_addr': {addr: response index}}, ...], 'ops': [...]}: ONE adapter
+                  instance; ops ['tick', dt] advance the clock, ['block', k] make ledger k the service's state (tip slot
+                  and answers), ['query', addr] call utxos(addr), ['tip'] read last_block_slot, ['poll'] call
+                  _is_chain_tip_updated().  Result: {'seq': [observation per op]}.
 The dump walks the returned pycardano objects with plain attribute reads only (no pycardano serialisation
 except Address -> str/bytes, which is what the returned object is compared by)."""
+import time as _time
+
+
+class _Clock:
+    ticks = 0                       # 1/1024 s
+    EPOCH = 1_700_000_000           # time.time() at tick 0
+
+
+CLOCK = _Clock()
+_time.monotonic = lambda: CLOCK.ticks / 1024.0
+_time.time = lambda: _Clock.EPOCH + CLOCK.ticks / 1024.0
+
 from _pre import *
 import json as _json
 import types
@@ -49,29 +70,45 @@ class _Resp:
         return _json.loads(self.text)
 
 
-class Served:
-    """The documents of one case, addressed by URL path."""
+class Service:
+    """The backend service as the stubs see it: a tip slot and, per address, the documents of its current answer.
+    Side documents (scripts, datums by hash) are those of the response served last."""
 
-    def __init__(self, docs):
-        self.docs = docs
+    def __init__(self, slot, by_addr):
         self.log = []
+        self.active = None
+        self.set(slot, by_addr)
 
-    def lookup(self, key):
+    def set(self, slot, by_addr):
+        self.slot = slot
+        self.by_addr = by_addr
+
+    def main(self, addr):
+        self.log.append('main')
+        docs = self.by_addr.get(addr)
+        if docs is None:
+            raise RuntimeError(f'unexpected address {addr!r}')
+        self.active = docs
+        return docs['main']
+
+    def side(self, key):
         self.log.append(key)
-        return self.docs.get(key)
+        return None if self.active is None or key is None else self.active.get(key)
 
 
-def blockfrost_get(served, addr):
+def blockfrost_get(service):
     def get(url, params=None, headers=None, **kw):
         path = url.split('/api/v0', 1)[1]
         page = int((params or {}).get('page') or 1)
         if path == '/epochs/latest':
             return _Resp(200, _json.dumps({'epoch': 1, 'start_time': 0, 'end_time': 1 << 40}))
-        if path == f'/addresses/{addr}/utxos':
+        if path == '/blocks/latest':
+            return _Resp(200, _json.dumps({'slot': service.slot, 'height': 1, 'hash': '00' * 32, 'epoch': 1}))
+        if path.startswith('/addresses/') and path.endswith('/utxos'):
             if page > 1:
                 return _Resp(200, '[]')
-            key = 'main'
-        elif path.startswith('/scripts/'):
+            return _Resp(200, service.main(path[len('/addresses/'):-len('/utxos')]))
+        if path.startswith('/scripts/'):
             rest = path[len('/scripts/'):]
             if rest.endswith('/cbor'):
                 key = 'script_cbor:' + rest[:-5]
@@ -81,62 +118,64 @@ def blockfrost_get(served, addr):
                 key = 'script:' + rest
         else:
             key = None
-        doc = served.lookup(key)
+        doc = service.side(key)
         if doc is None:
             return _Resp(404, _json.dumps({'status_code': 404, 'error': 'Not Found', 'message': 'not found'}))
         return _Resp(200, doc)
     return get
 
 
-def kupo_get(served, addr):
+def kupo_get(service):
     def get(url, *a, **kw):
         path = url.split('http://kupo', 1)[1]
-        if path == f'/matches/{addr}?unspent':
-            key = 'main'
-        elif path.startswith('/datums/'):
+        if path.startswith('/matches/') and path.endswith('?unspent'):
+            return _Resp(200, service.main(path[len('/matches/'):-len('?unspent')]))
+        if path.startswith('/datums/'):
             key = 'datum:' + path[len('/datums/'):]
         elif path.startswith('/scripts/'):
             key = 'script:' + path[len('/scripts/'):]
         else:
             key = None
-        doc = served.lookup(key)
+        doc = service.side(key)
         if doc is None:
             return _Resp(404, 'null')
         return _Resp(200, doc)
     return get
 
 
-class _Tip:
-    slot = 1
+# every open_X builds ONE adapter instance on the stubbed transport and returns (context, restore)
+def open_blockfrost(service, interval, maxsize):
+    requests.get = blockfrost_get(service)
 
-
-class _DummyBackend(ChainContext):
-    @property
-    def last_block_slot(self):
-        return 1
-
-
-def run_blockfrost(served, addr):
-    requests.get = blockfrost_get(served, addr)
-    try:
-        ctx = bf_mod.BlockFrostChainContext('project', base_url='http://stub/api')
-        return ctx.utxos(addr)
-    finally:
+    def restore():
         requests.get = _REAL_GET
-
-
-def run_kupo(served, addr):
-    fake = types.SimpleNamespace(get=kupo_get(served, addr))
-    real = kupo_mod.requests
-    kupo_mod.requests = fake
     try:
-        ctx = kupo_mod.KupoChainContextExtension(_DummyBackend(), kupo_url='http://kupo')
-        return ctx.utxos(addr)
-    finally:
+        return bf_mod.BlockFrostChainContext('project', base_url='http://stub/api'), restore
+    except BaseException:
+        restore()
+        raise
+
+
+def open_kupo(service, interval, maxsize):
+    class LiveBackend(ChainContext):
+        @property
+        def last_block_slot(self):
+            return service.slot
+
+    real = kupo_mod.requests
+    kupo_mod.requests = types.SimpleNamespace(get=kupo_get(service))
+
+    def restore():
         kupo_mod.requests = real
+    kw = {}
+    if interval is not None:
+        kw['refetch_chain_tip_interval'] = interval
+    if maxsize is not None:
+        kw['utxo_cache_size'] = maxsize
+    return kupo_mod.KupoChainContextExtension(LiveBackend(), kupo_url='http://kupo', **kw), restore
 
 
-def run_v5(served, addr):
+def open_v5(service, interval, maxsize):
     class WS:
         def connect(self, url):
             pass
@@ -148,9 +187,11 @@ def run_v5(served, addr):
             q = self.req['args'].get('query')
             if q == 'chainTip':
                 return _json.dumps({'type': 'jsonwsp/response', 'version': '1.0', 'servicename': 'ogmios',
-                                    'methodname': 'Query', 'result': {'slot': 1, 'hash': '00' * 32}, 'reflection': None})
-            if isinstance(q, dict) and q.get('utxo') == [addr]:
-                return served.lookup('main')
+                                    'methodname': 'Query', 'result': {'slot': service.slot, 'hash': '00' * 32},
+                                    'reflection': None})
+            if isinstance(q, dict) and isinstance(q.get('utxo'), list) and len(q['utxo']) == 1 \
+                    and isinstance(q['utxo'][0], str):
+                return service.main(q['utxo'][0])
             raise RuntimeError(f'unexpected ogmios v5 query {q!r}')
 
         def close(self):
@@ -158,14 +199,15 @@ def run_v5(served, addr):
 
     real = v5_mod.websocket
     v5_mod.websocket = types.SimpleNamespace(WebSocket=WS)
-    try:
-        ctx = v5_mod.OgmiosV5ChainContext('ws://stub', pycardano.Network.TESTNET, refetch_chain_tip_interval=1000)
-        return ctx.utxos(addr)
-    finally:
+
+    def restore():
         v5_mod.websocket = real
+    kw = {} if maxsize is None else {'utxo_cache_size': maxsize}
+    return v5_mod.OgmiosV5ChainContext('ws://stub', pycardano.Network.TESTNET,
+                                       refetch_chain_tip_interval=1000 if interval is None else interval, **kw), restore
 
 
-def run_v6(served, addr):
+def open_v6(service, interval, maxsize):
     from ogmios.statequery.QueryUtxo import QueryUtxo
 
     class Client:
@@ -173,7 +215,8 @@ def run_v6(served, addr):
 
         def __init__(self, *a, **kw):
             self.query_utxo = QueryUtxo(self)
-            self.query_network_tip = types.SimpleNamespace(execute=lambda: (_Tip(), None))
+            self.query_network_tip = types.SimpleNamespace(
+                execute=lambda: (types.SimpleNamespace(slot=service.slot), None))
 
         def __enter__(self):
             return self
@@ -183,21 +226,25 @@ def run_v6(served, addr):
 
         def send(self, payload):
             req = _json.loads(payload)
-            assert req['method'] == 'queryLedgerState/utxo' and req['params'] == {'addresses': [addr]}, req
+            assert req['method'] == 'queryLedgerState/utxo' and list(req['params']) == ['addresses'] \
+                and len(req['params']['addresses']) == 1, req
+            self.addr = req['params']['addresses'][0]
 
         def receive(self):
-            return _json.loads(served.lookup('main'))
+            return _json.loads(service.main(self.addr))
 
     real = v6_mod.OgmiosClient
     v6_mod.OgmiosClient = Client
-    try:
-        ctx = v6_mod.OgmiosV6ChainContext('stub', 1337, refetch_chain_tip_interval=1000)
-        return ctx.utxos(addr)
-    finally:
+
+    def restore():
         v6_mod.OgmiosClient = real
+    kw = {} if maxsize is None else {'utxo_cache_size': maxsize}
+    if interval is not None:                      # None: the constructor's default (DEFAULT_REFETCH_INTERVAL = 1000 s)
+        kw['refetch_chain_tip_interval'] = interval
+    return v6_mod.OgmiosV6ChainContext('stub', 1337, **kw), restore
 
 
-def run_cli(served, addr):
+def open_cli(service, interval, maxsize):
     class FakeSubprocess:
         CalledProcessError = cli_mod.subprocess.CalledProcessError
 
@@ -205,26 +252,27 @@ def run_cli(served, addr):
         def run(cmd, capture_output=True, check=True):
             args = cmd[1:]
             if args[:2] == ['query', 'tip']:
-                out = _json.dumps({'slot': 1, 'epoch': 1, 'block': 1, 'era': 'Conway', 'hash': '00' * 32,
+                out = _json.dumps({'slot': service.slot, 'epoch': 1, 'block': 1, 'era': 'Conway', 'hash': '00' * 32,
                                    'syncProgress': '100.00'})
             elif args[:2] == ['query', 'utxo']:
-                assert args[2:6] == ['--address', addr, '--out-file', '/dev/stdout'], args
-                out = served.lookup('main')
+                assert args[2] == '--address' and args[4:6] == ['--out-file', '/dev/stdout'], args
+                out = service.main(args[3])
             else:
                 raise RuntimeError(f'unexpected cardano-cli command {args!r}')
             return types.SimpleNamespace(stdout=out.encode())
 
     real = cli_mod.subprocess
     cli_mod.subprocess = FakeSubprocess
-    try:
-        ctx = cli_mod.CardanoCliChainContext(Path('/bin/true'), Path('/nonexistent.socket'), Path('/nonexistent.json'),
-                                             cli_mod.CardanoCliNetwork.PREPROD, refetch_chain_tip_interval=1000)
-        return ctx.utxos(addr)
-    finally:
+
+    def restore():
         cli_mod.subprocess = real
+    kw = {} if maxsize is None else {'utxo_cache_size': maxsize}
+    return cli_mod.CardanoCliChainContext(Path('/bin/true'), Path('/nonexistent.socket'), Path('/nonexistent.json'),
+                                          cli_mod.CardanoCliNetwork.PREPROD,
+                                          refetch_chain_tip_interval=1000 if interval is None else interval, **kw), restore
 
 
-RUN = {'blockfrost': run_blockfrost, 'kupo': run_kupo, 'ogmios_v5': run_v5, 'ogmios_v6': run_v6, 'cli': run_cli}
+OPEN = {'blockfrost': open_blockfrost, 'kupo': open_kupo, 'ogmios_v5': open_v5, 'ogmios_v6': open_v6, 'cli': open_cli}
 
 
 # ------------------------------------------------------------------ dumping the returned objects
@@ -308,21 +356,65 @@ def dump_utxo(u):
             'datum': dump_datum(o.datum), 'script': dump_script(o.script)}
 
 
-def handler(case, payload):
-    if case.get('make_addresses'):
-        return make_addresses()
-    served = Served(case['docs'])
+def observe(service, thunk):
+    """One call into the adapter; exceptions of the code under test are results."""
+    n = len(service.log)
     try:
-        utxos = RUN[case['svc']](served, case['addr'])
+        utxos = thunk()
     except RuntimeError:
         raise                                   # harness-level problem: report as driver_error
     except AssertionError as e:
         if 'unexpected' in str(e) or (e.args and isinstance(e.args[0], (dict, list))):
             raise
-        return {'err': err_kind(e), 'msg': str(e)[:200], 'requests': served.log}
+        return {'err': err_kind(e), 'msg': str(e)[:200], 'requests': service.log[n:]}
     except Exception as e:
-        return {'err': err_kind(e), 'msg': str(e)[:200], 'requests': served.log}
-    return {'ok': [dump_utxo(u) for u in utxos], 'requests': served.log}
+        return {'err': err_kind(e), 'msg': str(e)[:200], 'requests': service.log[n:]}
+    return {'ok': [dump_utxo(u) for u in utxos], 'requests': service.log[n:]}
+
+
+def run_sequence(case):
+    responses, ledgers = case['responses'], case['ledgers']
+
+    def answers(k):
+        return {a: responses[j] for a, j in ledgers[k]['by_addr'].items()}
+
+    service = Service(ledgers[0]['slot'], answers(0))
+    interval = None if case['interval'] is None else case['interval'] / 1024.0
+    ctx, restore = OPEN[case['svc']](service, interval, case['maxsize'])
+    out = []
+    try:
+        for op in case['ops']:
+            if op[0] == 'tick':
+                CLOCK.ticks += op[1]
+                out.append(None)
+            elif op[0] == 'block':
+                service.set(ledgers[op[1]]['slot'], answers(op[1]))
+                out.append(None)
+            elif op[0] == 'query':
+                out.append(observe(service, lambda: ctx.utxos(op[1])))
+            elif op[0] == 'tip':
+                out.append({'slot': ctx.last_block_slot})
+            elif op[0] == 'poll':
+                out.append({'polled': bool(ctx._is_chain_tip_updated())})
+            else:
+                raise RuntimeError(f'unexpected op {op!r}')
+    finally:
+        restore()
+    return {'seq': out}
+
+
+def handler(case, payload):
+    if case.get('make_addresses'):
+        return make_addresses()
+    CLOCK.ticks += 4096 * 1024                  # nothing memoised anywhere survives from the previous case
+    if case.get('seq'):
+        return run_sequence(case)
+    service = Service(1, {case['addr']: case['docs']})
+    ctx, restore = OPEN[case['svc']](service, None, None)
+    try:
+        return observe(service, lambda: ctx.utxos(case['addr']))
+    finally:
+        restore()
 
 
 def make_addresses():
